@@ -320,3 +320,60 @@ fn main() {{}}
 
 
 UNITS.append(VUnit("c10_number_loop", ["C10", "C01", "C03"], "from-loop counter: collision lookup, const test", build_number_loop))
+
+
+# =====================================================================================================================
+# Parser::assignment, tail: the const / type test of `=` and `modify` against the previous declaration
+ASG = "compiler/src/ast/assignment.rs"
+ASG_SPEC = NL_SPEC.split("#[verifier::external_body] pub struct Block")[0] + r"""
+pub struct AssignmentM { pub idents: Vec<Ident>, pub value: Value }
+#[verifier::external_body] pub fn opt_as_ref(o: &Option<Ident>) -> (r: Option<&Ident>) ensures o is None ==> r is None, o is Some ==> r == Some(&o->Some_0) { unimplemented!() }
+// Assignment::can_modify_if_applicable (its own lookup of the target; abstract here)
+pub uninterp spec fn can_modify_spec(n: &Node, a: &AssignmentM, is_modify: bool) -> Option<bool>;
+#[verifier::external_body] pub fn can_modify_if_applicable(a: &AssignmentM, n: &Node, is_modify: bool) -> (r: Result<bool, VErr>)
+    ensures r is Ok <==> can_modify_spec(n, a, is_modify) is Some, r is Ok ==> r->Ok_0 == can_modify_spec(n, a, is_modify)->Some_0 { unimplemented!() }
+"""
+
+
+def build_assignment_tail(repo):
+    src = Source(repo)
+    log = []
+    f = src.fn(ASG, "assignment", "impl Parser")
+    frag = slice_from(f["body"], "if x . idents . len ( ) == 1 { if let Some ( previous_ident )")
+    rules = [
+        Rule("R3", "return Err ( vec ! [ new_err ( $$a ) ] ) ;", "return Err ( VErr ) ;", why="diagnostic dropped"),
+        Rule("R1", "did_exist_before . as_ref ( )", "opt_as_ref ( & did_exist_before )", why="Option::as_ref"),
+        Rule("R6", "! previous_ident . ty ( ) . unwrap ( ) . eq_complex ( ident . ty ( ) . unwrap ( ) , & TypecheckFlags :: use_class ( self_type . as_ref ( ) ) , )",
+             "! eq_complex ( ident_ty ( previous_ident ) , ident_ty ( ident ) , self_type , false )", why="previous.eq_complex(new)"),
+        Rule("R6", "! previous_ty . ty ( ) . unwrap ( ) . eq_complex ( x . idents [ 0 ] . ty ( ) . unwrap ( ) , & TypecheckFlags :: use_class ( self_type . as_ref ( ) ) , )",
+             "! eq_complex ( ident_ty ( & previous_ty ) , ident_ty ( & x . idents [ 0 ] ) , self_type , false )", why="previous.eq_complex(new)"),
+        Rule("R6", "map_err ( x . can_modify_if_applicable ( user_data , is_modify ) , $$rest ) . to_err_vec ( ) ?", "can_modify_if_applicable ( & x , & input , is_modify ) ?", why="abstract callee; diagnostic dropped"),
+    ]
+    b = translate(frag, rules, log, "Parser::assignment[tail]")
+    check_closed(b, "assignment[tail]")
+    gen = header(log, f"{ASG}: Parser::assignment, from the checks against the previous declaration to the end") + prelude("parser.rs") + ASG_SPEC + f"""
+//@ OBL C10.assignment.const-test
+pub fn assignment_tail(input: Node, x: AssignmentM, did_exist_before: Option<Ident>, is_modify: bool, self_type: Option<&ClassType>) -> (r: Result<AssignmentM, VErr>)
+    requires
+        forall|i: int| 0 <= i < x.idents@.len() ==> (#[trigger] x.idents@[i]).ty is Some,      // assignment_* link a type to every declared ident
+        did_exist_before is Some ==> did_exist_before->Some_0.ty is Some,                      // registered idents are typed
+    ensures
+        // C10: `=` / `modify` on a single name is accepted only if the previous declaration of that name (the lookup result
+        // handed over by assignment_type / assignment_no_type) is not const ...
+        (r is Ok && x.idents@.len() == 1 && did_exist_before is Some) ==> !did_exist_before->Some_0.read_only,
+        // ... C03: and has a type the new value's type is compatible with
+        (r is Ok && x.idents@.len() == 1 && did_exist_before is Some) ==> compatible(&did_exist_before->Some_0.ty->Some_0, &x.idents@[0].ty->Some_0, self_type, false),
+        // and the target may be modified according to its own scope lookup whenever a previous declaration exists or `modify` is used
+        (r is Ok && x.idents@.len() == 1 && (did_exist_before is Some || is_modify)) ==> can_modify_spec(&input, &x, is_modify) == Some(true),
+        r is Ok ==> r->Ok_0 == x,
+{{
+{render(b, 1)}
+}}
+}} // verus!
+fn main() {{}}
+"""
+    return gen, [Obl("C10.assignment.const-test", ["C10", "C03"], fn="assignment_tail",
+                     desc="Parser::assignment (tail): an assignment / modify to an existing single name is rejected when the previous declaration is const or has an incompatible type")], log
+
+
+UNITS.append(VUnit("c10_assignment", ["C10", "C03"], "const / type test of `=` and `modify` against the previous declaration", build_assignment_tail))
